@@ -44,4 +44,77 @@ def totalOn (sh : EventShape) (s e : Rat) (t : Nat → Rat) : Nat → Rat
   | 0 => 0
   | k + 1 => totalOn sh s e t k + duration (callOn sh s e (t k) (t (k + 1)))
 
+/-! ### several burns of one agent, one thrust slot
+
+`Celestial.finite_thrust` is a single slot.  `_prepEvents` resets it and lets every queued burn that
+is under way at the start of the call install its thrust (in queue order); during the call every
+root of a burn's event function installs that burn's callback result: the thrust function at the
+start of the burn, `None` at its end.  The slot at a time `t` of the call is the value installed by
+the latest root not after `t` (roots at equal times fire in queue order, the later one wins), or
+the value left by `_prepEvents` when no root has fired yet. -/
+
+abbrev BurnIv := Rat × Rat
+
+structure Change where
+  time : Rat
+  val : Option BurnIv
+deriving Repr, DecidableEq
+
+/-- how `_prepEvents` treats a burn that is *not* under way at the start of the call -/
+inductive PrepShape
+  | keep      -- the code: the slot is left alone
+  | clobber   -- a seeded variant: the slot is set to `None` (a later burn switches an active one off)
+deriving Repr, DecidableEq
+
+def prepSlotWith (ps : PrepShape) (burns : List BurnIv) (t0 : Rat) : Option BurnIv :=
+  burns.foldl (fun slot b =>
+    if b.1 < t0 ∧ t0 < b.2 then (if b.2 - t0 < tol then none else some b)
+    else match ps with
+      | .keep => slot
+      | .clobber => none) none
+
+def prepSlot (burns : List BurnIv) (t0 : Rat) : Option BurnIv := prepSlotWith .keep burns t0
+
+/-- the burn's event is `active` after `_prepEvents` -/
+def armedAfterPrep (b : BurnIv) (t0 : Rat) : Bool :=
+  decide (b.1 < t0) && decide (t0 < b.2) && !(decide (b.2 - t0 < tol))
+
+/-- the roots of one burn's event function inside the call `[t0, t1]`, in time order, with the value
+its callback installs -/
+def rootsOf (b : BurnIv) (t0 t1 : Rat) : List Change :=
+  if armedAfterPrep b t0 then (if b.2 ≤ t1 then [⟨b.2, none⟩] else [])
+  else if t0 ≤ b.1 ∧ b.1 ≤ t1 then
+    (if b.2 - b.1 < tol then [⟨b.1, none⟩]
+     else ⟨b.1, some b⟩ :: (if b.2 ≤ t1 then [⟨b.2, none⟩] else []))
+  else []
+
+def allRoots (burns : List BurnIv) (t0 t1 : Rat) : List Change := burns.flatMap (rootsOf · t0 t1)
+
+/-- the latest change not after `t`; among equal times the one later in the list -/
+def latest : List Change → Rat → Option Change
+  | [], _ => none
+  | c :: l, t =>
+    match latest l t with
+    | some d => if c.time ≤ t ∧ d.time < c.time then some c else some d
+    | none => if c.time ≤ t then some c else none
+
+/-- the thrust slot at time `t` of the call `[t0, t1]` -/
+def slotAtWith (ps : PrepShape) (burns : List BurnIv) (t0 t1 t : Rat) : Option BurnIv :=
+  match latest (allRoots burns t0 t1) t with
+  | none => prepSlotWith ps burns t0
+  | some c => c.val
+
+def slotAt (burns : List BurnIv) (t0 t1 t : Rat) : Option BurnIv := slotAtWith .keep burns t0 t1 t
+
+/-- the callbacks of one call in the order in which they happen: `_prepEvents` first (queue order), then the
+roots by time (equal times in queue order) -/
+def insertChange (c : Change) : List Change → List Change
+  | [] => [c]
+  | d :: l => if c.time < d.time then c :: d :: l else d :: insertChange c l
+
+def timeline (burns : List BurnIv) (t0 t1 : Rat) : List Change :=
+  let prep := burns.filterMap fun b =>
+    if b.1 < t0 ∧ t0 < b.2 then some ⟨t0, if b.2 - t0 < tol then none else some b⟩ else none
+  prep ++ (allRoots burns t0 t1).foldl (fun acc c => insertChange c acc) []
+
 end RV.Burn
